@@ -235,6 +235,12 @@ fn run_vectors(tier: &str, vectors: &[u32]) -> Report {
                                 } else if *k == "hashes" || *k == "signatures" || *k == "unsigned" {
                                     let mut o = BTreeMap::new();
                                     o.insert("a".to_owned(), leaf(k));
+                                    if *k == "unsigned" {
+                                        // the event may already carry a (stale, untrusted) redacted_because
+                                        let mut old = BTreeMap::new();
+                                        old.insert("event_id".to_owned(), CanonicalJsonValue::String("$old".to_owned()));
+                                        o.insert("redacted_because".to_owned(), CanonicalJsonValue::Object(old));
+                                    }
                                     ev.insert((*k).to_owned(), CanonicalJsonValue::Object(o));
                                 } else {
                                     ev.insert((*k).to_owned(), leaf(k));
